@@ -230,8 +230,11 @@ class AsyncTask(futures.FutureBase):
             else:
                 self._frame = debug.get_frame(self._generator)
                 self.running = True
-                if hasattr(error, "_type_"):
-                    return self._generator.throw(error._type_, error, error._traceback)
+                tb = getattr(error, "_traceback", None)
+                if tb is not None:
+                    # (not error._type_: an exception class may have an attribute of its own
+                    # with that name)
+                    return self._generator.throw(type(error), error, tb)
                 else:
                     # (one-argument form: keeps the traceback the error already has, e.g. the
                     # frames of the batch flush or value provider that raised it)
@@ -280,6 +283,9 @@ class AsyncTask(futures.FutureBase):
                 if not hasattr(error, "_task"):
                     error._task = self
                     core_errors.prepare_for_reraise(error)
+                    if not hasattr(error, "_traceback"):
+                        # see _prepare_for_reraise
+                        error._traceback = sys.exc_info()[2]
                 else:
                     # when we already have the _task on the error, it means that
                     # some child generator of ours had an error.
@@ -452,6 +458,10 @@ class AsyncTask(futures.FutureBase):
 def _prepare_for_reraise(error):
     try:
         core_errors.prepare_for_reraise(error)
+        if not hasattr(error, "_traceback"):
+            # an exception class with an attribute of its own called _type_ looks prepared
+            # already and gets nothing attached: reraise() would then fail on it
+            error._traceback = sys.exc_info()[2]
     except (AttributeError, TypeError):
         # the exception object does not accept new attributes (see _accept_error)
         pass
